@@ -33,6 +33,11 @@ def gen_indices(rng, layout):
         idx = rng.integers(-5, 6, (n, 2)).astype(np.float64)
         if rng.random() < 0.3:
             idx = idx + rng.integers(0, 4, (n, 2)) / 4.0
+        if rng.random() < 0.25:
+            # fractional indices very close to, but not equal to, the zero order (only index (0, 0) exactly is the zero order)
+            tiny = float(10.0 ** -int(rng.integers(7, 14)))
+            extra = np.array([[tiny, 0.0], [0.0, -tiny], [tiny, tiny], [0.0, 0.0]])[: int(rng.integers(1, 5))]
+            idx = np.vstack([idx, extra])
         flat = idx
     return idx, np.asarray(flat, dtype=np.float64)
 
